@@ -36,6 +36,14 @@ class C20(Check):
                 for ln in (1, 64, 65, 72, 73, 74, 77, 80):
                     for fill in (0x00, 0xff):
                         cs.append(Case("atype %s %s" % (n, (bytes([first]) + bytes([fill]) * (ln - 1)).hex()), "atype-uniform-fill"))
+        # the table as seen through the address TEXT: all nine tags with spend keys whose first byte takes every value (the
+        # leading base58 characters are a function of tag and first key byte), read back by Address::from_str
+        from props import c12 as A
+        for (net, kind) in A.TAGS:
+            for b0 in range(256):
+                pid = bytes([b0 ^ 0x5a]) * 8
+                blobb = A.blob_of(net, kind, pid, A.key_with_first_byte(b0), A.key_with_first_byte((b0 * 7 + 3) % 256))
+                cs.append(Case("addr_from_str " + A.b58_enc(blobb).hex(), "tag-through-address-text"))
         # the empty blob is listed once per network as non-trivial
         for n in ("main", "test", "stage"):
             cs.append(Case("atype %s -" % n, "atype-empty"))
@@ -53,6 +61,9 @@ class C20(Check):
         elif w[0] == "net_from":
             b = int(w[1])
             exp = ("OK " + INV[b][0]) if b in INV else "ERR"
+        elif w[0] == "addr_from_str":
+            from props import c12 as A
+            exp = A.expected(case.line)
         else:
             n = w[1]
             b = b"" if w[2] == "-" else bytes.fromhex(w[2])
